@@ -91,7 +91,7 @@ class ExecPlaces(Exec):
             if c.items is not None:
                 c.items.append(v)
             else:
-                c.sv = seq_concat(c.sv, SV(unit(lift(self.to_sv(v), c.elem)), c.sv.ty))
+                c.sv = seq_concat(c.sv, SV(unit(lift(self.to_sv(v, c.elem), c.elem)), c.sv.ty))
             return None
         if name == "extend":
             (v,) = args
